@@ -13,9 +13,13 @@ from .trace import normalise
 
 # property id -> observer tag prefixes that decide it
 TAGS = {
-    "C04": ("C04_", "C07_NilNotInstalled", "C07_ErrMismatch", "C02_"),
+    # (C09_EnabledInvalid / C09_EnableWrongCfg: verification switched on while the current version does not verify / is not the
+    # one Verify was shown - it is then observable while verification is active without having passed Verify)
+    "C04": ("C04_", "C07_NilNotInstalled", "C07_ErrMismatch", "C02_", "C09_EnabledInvalid", "C09_EnableWrongCfg"),
     "C05": ("C05_", "C02_"),
-    "C06": ("C06_",),
+    # a ViewVersion token that does not identify the config it came with makes a registration skip a version (no catch-up, the
+    # ordinary event filtered out): the pair check of the observer also decides C06
+    "C06": ("C06_", "C05_PairMismatch"),
     "C07": ("C07_", "C08_Hang", "C08_Anomaly"),
     "C08": ("C08_",),
     "C09": ("C09_",),
@@ -69,6 +73,17 @@ def done_scenario(rng, family, idx, mode):
             "procs": {"r1": ops, "c1": [{"op": "view"}]}, "starve": ["cb"] if rng.random() < 0.7 else []}
 
 
+def enable_after_exit_scenario(rng, family, idx, mode):
+    """Delayed verification, the only watcher is done at once (the monitor exits), then more EnableVerification calls from
+    separate goroutines than the control channel has slots: each must come back by the end of its own context."""
+    procs = {"r1": [{"op": "done"}]}
+    for c in range(1, rng.randint(5, 6) + 1):
+        procs["c%d" % c] = [{"op": "enable"}, {"op": "view"}]
+    return {"id": "%s-%s-x%d" % (family, mode[0], idx), "mode": mode, "seed": rng.randrange(1 << 30), "onnew": True, "onerr": True,
+            "cbcap": 4, "def": {"x": 1, "y": 2}, "skip": False, "delay": True, "suppress": rng.random() < 0.5, "oracle": True,
+            "maxsteps": 600, "pcancel": 0.0, "cancelok": [], "init": [{"x": 11, "y": 0, "u": False}], "procs": procs}
+
+
 def gen_scenario(rng, family, idx, mode):
     nsrc = rng.choice([1, 2, 2]) if family != "C06" else rng.choice([1, 1, 2])
     sc = {"id": "%s-%s-%d" % (family, mode[0], idx), "mode": mode, "seed": rng.randrange(1 << 30),
@@ -76,14 +91,15 @@ def gen_scenario(rng, family, idx, mode):
           "def": {"x": rng.choice([0, 1]), "y": rng.choice([0, 2])},
           "skip": False, "delay": False, "suppress": False, "oracle": True, "maxsteps": 400,
           "pcancel": 0.0, "cancelok": []}
-    if family in ("C04", "C09", "C08"):
+    if family in ("C04", "C09", "C08", "C07"):
+        # (SkipInitialVerification skips the first Verify only: later reports must still be verified and rejections answered)
         sc["skip"] = rng.random() < 0.25
     if family == "C07" and rng.random() < 0.25:
         # blocking reports while verification is delayed (with and without the suppress option): rejections must still be answered
         sc["delay"] = True
         sc["suppress"] = rng.random() < 0.6
-    if family == "C09" or (family in ("C04", "C08") and rng.random() < 0.3):
-        sc["delay"] = rng.random() < (0.8 if family == "C09" else 0.5)
+    if family == "C09" or (family in ("C04", "C08") and rng.random() < (0.45 if family == "C04" else 0.3)):
+        sc["delay"] = rng.random() < (0.8 if family == "C09" else 0.6)
         sc["suppress"] = rng.random() < 0.5
     if family == "C06":
         sc["cbcap"] = rng.choice([1, 2, 2, 3, 64])
@@ -151,6 +167,9 @@ def gen_scenario(rng, family, idx, mode):
                 k = "enable" if r < 0.55 else ("view" if r < 0.8 else "reg")
             elif family == "C08":
                 k = "view" if r < 0.2 else ("reg" if r < 0.5 else ("unreg" if r < 0.8 else "enable"))
+            elif family == "C04" and sc["delay"]:
+                # the switch into verifying mode races with value reports: whatever is current when it succeeds must have verified
+                k = "enable" if r < 0.45 else ("view" if r < 0.8 else "reg")
             else:
                 k = "view" if r < 0.6 else "reg"
             if k == "unreg" and not regs:
@@ -440,12 +459,14 @@ def run_check(pid, tier, replay=None):
         scenarios += [gen_scenario(rng, pid, i, "random") for i in range(n_gated)]
         if pid in ("C08", "C06"):
             scenarios += [overflow_scenario(rng, pid, i, "random") for i in range(12 if quick else 200)]
+        if pid == "C08":
+            scenarios += [enable_after_exit_scenario(rng, pid, i, "random") for i in range(10 if quick else 100)]
         if pid in ("C04", "C06", "C08"):
             scenarios += [done_scenario(rng, pid, i, "random") for i in range(40 if quick else 400)]
         free = [gen_scenario(rng, pid, i, "free") for i in range(n_free)]
         for s in free:
             s["oracle"] = False
-        if pid == "C05":
+        if pid in ("C05", "C06"):
             free += [stress_scenario(rng, i) for i in range(6 if quick else 60)]
         scenarios += free
         # half of the scenarios keep leaf y behind a user-declared pointer to a struct that sources hand over with its own type
